@@ -34,6 +34,7 @@ type Engine struct {
 	topFrame    *Frame
 	inlineStack []*ssa.Function
 	inlineExternal map[string]bool
+	privCache      map[*ssa.Function]*privInfo
 	needStrEq bool
 	allFuncs  map[*ssa.Function]bool
 	sigIndex  map[string][]*ssa.Function
